@@ -28,6 +28,7 @@ pub const PRELUDE: &str = "
 (define (down n) (if (< n 1) 0 (- (down (- n 1)) -1)))
 (define (loop n acc) (if (< n 1) acc (loop (- n 1) (- acc -1))))
 (define (par n) (define (ev n) (if (< n 1) 1 (od (- n 1)))) (define (od n) (if (< n 1) 0 (ev (- n 1)))) (ev n))
+(define (force-all ts) (if (null? ts) '() (cons ((car ts)) (force-all (cdr ts)))))
 ";
 
 pub struct CoreGrammar {
@@ -417,6 +418,193 @@ impl Grammar for CoreGrammar {
     }
 }
 
+
+// ---- loop grammar ---------------------------------------------------------------------------
+// User-defined recursion on a decreasing counter (`(define (g a b) (if (< a 1) BASE REC))`, and
+// the same loop run through a closure maker `(define (mk k) (lambda (a b) ...))` whose tail call
+// goes to a *new* closure of the same lambda), accumulators that are integers or lists of thunks
+// capturing the loop's variables, inline-lambda (`let`-shaped) scopes that shadow the loop
+// variable, `set!` and internal definitions in bodies. Every recursive call passes `(- a 1)`, so
+// programs terminate unless `a` is assigned (those are cut by the reference's fuel).
+pub const L_INT: Ty = 200;
+pub const L_TH: Ty = 201;
+pub const L_THL: Ty = 202;
+pub const L_BODY: Ty = 203;
+pub const L_PROG: Ty = 210;
+const REC_INT: Ty = 220;
+const REC_THL: Ty = 221;
+const MK_INT: Ty = 222;
+const MK_THL: Ty = 223;
+
+pub struct LoopGrammar {
+    envs: Vec<Vec<(String, Ty)>>,
+    ids: HashMap<Vec<(String, Ty)>, EnvId>,
+}
+
+impl LoopGrammar {
+    pub fn new() -> Self {
+        let mut g = LoopGrammar { envs: vec![], ids: HashMap::new() };
+        g.intern(vec![]);
+        g
+    }
+    fn intern(&mut self, e: Vec<(String, Ty)>) -> EnvId {
+        if let Some(i) = self.ids.get(&e) {
+            return *i;
+        }
+        let id = self.envs.len() as EnvId;
+        self.envs.push(e.clone());
+        self.ids.insert(e, id);
+        id
+    }
+    fn extend(&mut self, env: EnvId, binds: &[(&str, Ty)]) -> EnvId {
+        let mut e = self.envs[env as usize].clone();
+        for (n, t) in binds {
+            e.retain(|(m, _)| m != n);
+            e.push((n.to_string(), *t));
+        }
+        self.intern(e)
+    }
+    /// without the recursive callees (inside a scope that rebinds the loop counter `a`)
+    fn without_rec(&mut self, env: EnvId) -> EnvId {
+        let mut e = self.envs[env as usize].clone();
+        e.retain(|(_, t)| *t < REC_INT);
+        self.intern(e)
+    }
+    fn vars(&self, env: EnvId, ty: Ty) -> Vec<Prod> {
+        self.envs[env as usize].iter().filter(|(_, t)| *t == ty).map(|(n, _)| Prod { cost: 1, kids: vec![], tpl: tl(n), tag: "var" }).collect()
+    }
+    fn names_of(&self, env: EnvId, ty: Ty) -> Vec<String> {
+        self.envs[env as usize].iter().filter(|(_, t)| *t == ty).map(|(n, _)| n.clone()).collect()
+    }
+    fn dec_a() -> Tpl {
+        Tpl::List(vec![tl("-"), tl("a"), Tpl::Lit(Sx::Int(1))])
+    }
+    /// productions shared by the two accumulator types: conditional on a variable, inline lambda
+    /// scopes, recursive calls
+    fn common(&mut self, ty: Ty, env: EnvId) -> Vec<Prod> {
+        let mut out = vec![];
+        for v in self.names_of(env, L_INT) {
+            let test = Tpl::List(vec![tl("<"), tl(&v), Tpl::Lit(Sx::Int(1))]);
+            out.push(Prod { cost: 1, kids: vec![(ty, env), (ty, env)], tpl: Tpl::List(vec![tl("if"), test, Tpl::Hole(0), Tpl::Hole(1)]), tag: "loop-if" });
+        }
+        for p in ["a", "c"] {
+            let mut benv = self.extend(env, &[(p, L_INT)]);
+            if p == "a" {
+                benv = self.without_rec(benv);
+            }
+            let body_ty = if ty == L_INT { L_BODY } else { ty };
+            let lam = if ty == L_INT {
+                Tpl::Dotted(vec![tl("lambda"), Tpl::List(vec![tl(p)])], Box::new(Tpl::Hole(0)))
+            } else {
+                Tpl::List(vec![tl("lambda"), Tpl::List(vec![tl(p)]), Tpl::Hole(0)])
+            };
+            out.push(Prod { cost: 1, kids: vec![(body_ty, benv), (L_INT, env)], tpl: Tpl::List(vec![lam, Tpl::Hole(1)]), tag: if p == "a" { "inline-lambda-shadowing" } else { "inline-lambda" } });
+        }
+        let (rec, mk) = if ty == L_INT { (REC_INT, MK_INT) } else { (REC_THL, MK_THL) };
+        for g in self.names_of(env, rec) {
+            out.push(Prod { cost: 1, kids: vec![(ty, env)], tpl: Tpl::List(vec![tl(&g), Self::dec_a(), Tpl::Hole(0)]), tag: "self-call" });
+        }
+        for m in self.names_of(env, mk) {
+            let fresh = Tpl::List(vec![tl(&m), Tpl::List(vec![tl("-"), tl("k"), Tpl::Lit(Sx::Int(1))])]);
+            out.push(Prod { cost: 1, kids: vec![(ty, env)], tpl: Tpl::List(vec![fresh, Self::dec_a(), Tpl::Hole(0)]), tag: "call-through-new-closure" });
+        }
+        out
+    }
+    fn prog_prods(&mut self) -> Vec<Prod> {
+        let mut out = vec![];
+        let guard = |base: usize, rec: usize| Tpl::List(vec![tl("if"), Tpl::List(vec![tl("<"), tl("a"), Tpl::Lit(Sx::Int(1))]), Tpl::Hole(base), Tpl::Hole(rec)]);
+        for (ty, rec, mk) in [(L_INT, REC_INT, MK_INT), (L_THL, REC_THL, MK_THL)] {
+            let probes: Vec<(Tpl, Tpl)> = (0..4)
+                .map(|k| {
+                    let init = if ty == L_INT { Sx::Int((k % 2) as i64) } else { crate::sexp::quote(Sx::List(vec![])) };
+                    let wrap = |call: Tpl| if ty == L_INT { call } else { Tpl::List(vec![tl("force-all"), call]) };
+                    (
+                        wrap(Tpl::List(vec![tl("g"), Tpl::Lit(Sx::Int(k)), Tpl::Lit(init.clone())])),
+                        wrap(Tpl::List(vec![Tpl::List(vec![tl("mk"), Tpl::Lit(Sx::Int(k + 1))]), Tpl::Lit(Sx::Int(k)), Tpl::Lit(init)])),
+                    )
+                })
+                .collect();
+            let env_ab = self.extend(0, &[("a", L_INT), ("b", ty)]);
+            let env_abg = self.extend(env_ab, &[("g", rec)]);
+            let env_kab = self.extend(0, &[("k", L_INT), ("a", L_INT), ("b", ty)]);
+            let env_kabm = self.extend(env_kab, &[("mk", mk)]);
+            let env_vab = self.extend(env_ab, &[("v", L_INT)]);
+            let env_vabg = self.extend(env_abg, &[("v", L_INT)]);
+            for (pg, pm) in probes {
+                // direct self recursion
+                out.push(Prod {
+                    cost: 1,
+                    kids: vec![(ty, env_ab), (ty, env_abg)],
+                    tpl: Tpl::List(vec![Tpl::List(vec![tl("define"), Tpl::List(vec![tl("g"), tl("a"), tl("b")]), guard(0, 1)]), pg.clone()]),
+                    tag: "loop-direct",
+                });
+                // the same with an internal definition in front of the conditional
+                out.push(Prod {
+                    cost: 2,
+                    kids: vec![(L_INT, env_ab), (ty, env_vab), (ty, env_vabg)],
+                    tpl: Tpl::List(vec![
+                        Tpl::List(vec![tl("define"), Tpl::List(vec![tl("g"), tl("a"), tl("b")]), Tpl::List(vec![tl("define"), tl("v"), Tpl::Hole(0)]), guard(1, 2)]),
+                        pg,
+                    ]),
+                    tag: "loop-direct-internal-define",
+                });
+                // through a closure maker: every round runs a new closure of the same lambda
+                out.push(Prod {
+                    cost: 1,
+                    kids: vec![(ty, env_kab), (ty, env_kabm)],
+                    tpl: Tpl::List(vec![
+                        Tpl::List(vec![tl("define"), Tpl::List(vec![tl("mk"), tl("k")]), Tpl::List(vec![tl("lambda"), Tpl::List(vec![tl("a"), tl("b")]), guard(0, 1)])]),
+                        pm,
+                    ]),
+                    tag: "loop-through-closure-maker",
+                });
+            }
+        }
+        out
+    }
+}
+
+impl Grammar for LoopGrammar {
+    fn prods(&mut self, ty: Ty, env: EnvId) -> Vec<Prod> {
+        let mut out = vec![];
+        match ty {
+            L_INT => {
+                out.push(CoreGrammar::atom(Sx::Int(0)));
+                out.push(CoreGrammar::atom(Sx::Int(1)));
+                out.extend(self.vars(env, L_INT));
+                out.push(CoreGrammar::form("-", vec![(L_INT, env), (L_INT, env)], "builtin"));
+                out.push(CoreGrammar::app(vec![(L_TH, env)], "thunk-call"));
+                out.extend(self.common(L_INT, env));
+            }
+            L_TH => {
+                out.extend(self.vars(env, L_TH));
+                out.push(Prod { cost: 1, kids: vec![(L_INT, env)], tpl: Tpl::List(vec![tl("lambda"), Tpl::List(vec![]), Tpl::Hole(0)]), tag: "thunk" });
+            }
+            L_THL => {
+                out.push(CoreGrammar::atom(crate::sexp::quote(Sx::List(vec![]))));
+                out.extend(self.vars(env, L_THL));
+                out.push(CoreGrammar::form("cons", vec![(L_TH, env), (L_THL, env)], "builtin"));
+                out.extend(self.common(L_THL, env));
+            }
+            L_BODY => {
+                out.push(Prod { cost: 0, kids: vec![(L_INT, env)], tpl: Tpl::List(vec![Tpl::Hole(0)]), tag: "" });
+                for x in self.names_of(env, L_INT) {
+                    out.push(Prod { cost: 1, kids: vec![(L_INT, env), (L_INT, env)], tpl: Tpl::List(vec![Tpl::List(vec![tl("set!"), tl(&x), Tpl::Hole(0)]), Tpl::Hole(1)]), tag: "body-set!" });
+                }
+                let env_v = self.extend(env, &[("v", L_INT)]);
+                // the initialiser must not mention the v this body defines (R7RS: an error)
+                let mut e = self.envs[env as usize].clone();
+                e.retain(|(m, _)| m != "v");
+                let env_no_v = self.intern(e);
+                out.push(Prod { cost: 1, kids: vec![(L_INT, env_no_v), (L_INT, env_v)], tpl: Tpl::List(vec![Tpl::List(vec![tl("define"), tl("v"), Tpl::Hole(0)]), Tpl::Hole(1)]), tag: "internal-var" });
+            }
+            L_PROG => out = self.prog_prods(),
+            _ => panic!("unknown loop type {}", ty),
+        }
+        out
+    }
+}
+
 /// flatten `(a b . (c d))` produced by dotted templates whose tail is a list of forms
 pub fn normalise(x: Sx) -> Sx {
     match x {
@@ -436,14 +624,15 @@ pub fn normalise(x: Sx) -> Sx {
 }
 
 pub struct Space {
-    pub tables: Vec<(Table, EnvId, &'static str)>,
+    /// (table, root environment, name, root type)
+    pub tables: Vec<(Table, EnvId, &'static str, Ty)>,
     /// (table index, nodes, count) in enumeration order
     pub blocks: Vec<(usize, u32, u64)>,
     pub total: u64,
 }
 
 impl Space {
-    pub fn new(max_nodes: u32, scope_nodes: u32) -> Space {
+    pub fn new(max_nodes: u32, scope_nodes: u32, loop_nodes: u32) -> Space {
         let mut tables = vec![];
         let mut blocks = vec![];
         let mut total = 0;
@@ -458,7 +647,19 @@ impl Space {
                     total += k;
                 }
             }
-            tables.push((c.freeze(), 0, "scoping-grammar"));
+            tables.push((c.freeze(), 0, "scoping-grammar", PROG));
+        }
+        {
+            let mut c = Counter::new(LoopGrammar::new());
+            let ti = tables.len();
+            for n in 1..=loop_nodes {
+                let k = c.count(L_PROG, 0, n);
+                if k > 0 {
+                    blocks.push((ti, n, k));
+                    total += k;
+                }
+            }
+            tables.push((c.freeze(), 0, "loop-grammar", L_PROG));
         }
         for (shadow, name) in [(false, "fresh-names"), (true, "shadowing-names")] {
             let mut g = CoreGrammar::new(shadow, true);
@@ -473,7 +674,7 @@ impl Space {
                     total += k;
                 }
             }
-            tables.push((c.freeze(), top, name));
+            tables.push((c.freeze(), top, name, PROG));
         }
         // simplest first across both disciplines
         blocks.sort_by_key(|b| (b.1, b.0));
@@ -483,9 +684,9 @@ impl Space {
     pub fn program(&self, mut i: u64) -> (Vec<Sx>, u32, Vec<&'static str>, &'static str) {
         for (ti, n, k) in &self.blocks {
             if i < *k {
-                let (t, top, name) = &self.tables[*ti];
+                let (t, top, name, root) = &self.tables[*ti];
                 let mut tags = vec![];
-                let p = normalise(t.unrank(PROG, *top, *n, i, &mut tags));
+                let p = normalise(t.unrank(*root, *top, *n, i, &mut tags));
                 let mut forms = match p {
                     Sx::List(v) => v,
                     _ => unreachable!(),
@@ -625,7 +826,8 @@ fn sweep(sp: &Space, policy: Policy, fresh_upto: u64) -> Acc {
 pub fn run(ctx: &Ctx) -> i32 {
     let max_nodes: u32 = std::env::var("C01_NODES").ok().and_then(|s| s.parse().ok()).unwrap_or(if ctx.thorough() { 9 } else { 7 });
     let scope_nodes: u32 = std::env::var("C01_SCOPE_NODES").ok().and_then(|s| s.parse().ok()).unwrap_or(if ctx.thorough() { 13 } else { 11 });
-    let sp = Space::new(max_nodes, scope_nodes);
+    let loop_nodes: u32 = std::env::var("C01_LOOP_NODES").ok().and_then(|s| s.parse().ok()).unwrap_or(if ctx.thorough() { 9 } else { 7 });
+    let sp = Space::new(max_nodes, scope_nodes, loop_nodes);
     // programs (simplest first) that are additionally re-run on a fresh interpreter
     let fresh_upto: u64 = std::env::var("C01_FRESH").ok().and_then(|s| s.parse().ok()).unwrap_or(if ctx.thorough() { 20_000 } else { 2_000 });
     let mut best: Option<(Acc, Policy)> = None;
@@ -651,7 +853,7 @@ pub fn run(ctx: &Ctx) -> i32 {
             seed: ctx.seed,
             exhaustive: true,
             rule: "every program of the typed core grammar (literals, variables, -, car/cdr/cons/list/null?, if with boolean and non-boolean tests, lambda with fixed/rest parameters, bodies with internal definitions incl. forward references, applications, apply with and without spread arguments, higher-order and closure-making procedures, top-level definitions in both spellings, tick at every position) with at most N nodes, under two naming disciplines (fresh names / role names that shadow); distinct = distinct per-form observation vectors".into(),
-            bounds: json!({"max_nodes": max_nodes, "scoping_grammar_max_nodes": scope_nodes, "blocks": blocks, "fresh_mode_reruns_upto_index": fresh_upto}),
+            bounds: json!({"max_nodes": max_nodes, "scoping_grammar_max_nodes": scope_nodes, "loop_grammar_max_nodes": loop_nodes, "blocks": blocks, "fresh_mode_reruns_upto_index": fresh_upto}),
             assumptions: vec![
                 "reference evaluator refsem (self-tested on R7RS 4.1/4.2 examples)".into(),
                 "operand evaluation order: one of four global policies must explain all cases".into(),
